@@ -100,7 +100,15 @@ func c04View(rec *httptest.ResponseRecorder) string {
 	return fmt.Sprintf("%d/%s/%s", res.StatusCode, h, b)
 }
 
+// c04RestErr: an ERROR value a handler panics with (p:100..p:199); the wrapper must re-raise this very value.
+type c04RestErr int
+
+func (e c04RestErr) Error() string { return fmt.Sprintf("rest-err-%d", int(e)) }
+
 func c04PanicTok(p any) string {
+	if e, ok := p.(c04RestErr); ok {
+		return fmt.Sprintf("panic:%d", int(e))
+	}
 	s := fmt.Sprint(p)
 	if i := strings.Index(s, "invalid WriteHeader code "); i >= 0 {
 		rest := strings.Fields(s[i+len("invalid WriteHeader code "):])
@@ -147,7 +155,12 @@ func c04Do(w http.ResponseWriter, a string) string {
 		return "noflusher"
 	case a == "p:999999":
 		panic(http.ErrAbortHandler)
+	case a == "g":
+		runtime.Goexit() // the handler's goroutine ends: deferred calls run, recover() is nil, nothing returns
 	case strings.HasPrefix(a, "p:"):
+		if v := verifh.Atoi(a[2:]); v >= 100 && v < 200 {
+			panic(c04RestErr(v)) // a panic with an error value
+		}
 		panic(verifh.Atoi(a[2:]))
 	}
 	panic("bad action " + a)
@@ -228,13 +241,18 @@ func c04Rest(op []string) string {
 		for _, a := range acts {
 			<-gate
 			func() {
+				normal := false
 				defer func() {
 					if p := recover(); p != nil {
 						ack <- "p" + strings.TrimPrefix(c04PanicTok(p), "panic:")
 						panic(p)
 					}
+					if !normal {
+						ack <- "gx" // runtime.Goexit: no panic, no return
+					}
 				}()
 				res := c04Do(w, a)
+				normal = true
 				ack <- res
 			}()
 		}
@@ -256,13 +274,16 @@ func c04Rest(op []string) string {
 		th.ServeHTTP(rec, req)
 	}()
 	var results []string
-	alive := true
+	alive, goexited := true, false
 	release := func() {
 		gate <- struct{}{}
 		a := <-ack
 		results = append(results, a)
-		if a == "ret" || strings.HasPrefix(a, "p") {
+		if a == "ret" || a == "gx" || strings.HasPrefix(a, "p") {
 			alive = false
+		}
+		if a == "gx" {
+			goexited = true
 		}
 	}
 	fire := func() {
@@ -280,7 +301,7 @@ func c04Rest(op []string) string {
 		release()
 	}
 	sret, returned := "", false
-	if !alive {
+	if !alive && !goexited {
 		// the handler ended first: ServeHTTP returns through done / panic; a later expiry must be harmless
 		sret, returned = c04WaitS(sdone, c04StuckBound(), "stuck")
 		fire()
@@ -684,7 +705,7 @@ func c04Script(r *verifh.Rng, flush bool) []string {
 				acts = append(acts, "w:zz")
 			}
 		default:
-			acts = append(acts, fmt.Sprintf("p:%d", r.Pick(1, 2, 3, 4, 5, 6, 7, 8, 9, 999999)))
+			acts = append(acts, fmt.Sprintf("p:%d", r.Pick(1, 2, 3, 4, 5, 6, 7, 8, 9, 999999, 999999, 100+r.Intn(100), 100+r.Intn(100))))
 		}
 	}
 	return acts
@@ -723,13 +744,20 @@ func c04Gen(r *verifh.Rng) []verifh.Section {
 			if kind == "timer" && r.Chance(1, 2) {
 				kind = "deadline"
 			}
+			goexit := false
+			if kind != "none" && r.Chance(1, 9) {
+				// the handler's goroutine ends by runtime.Goexit after some of its actions
+				at := r.Intn(len(acts) + 1)
+				acts = append(append(append([]string{}, acts[:at]...), "g"), acts[at:]...)
+				goexit = true
+			}
 			k := r.Intn(len(acts) + 2)
 			hdr := "plain"
-			if r.Chance(1, 6) {
+			if !goexit && r.Chance(1, 6) {
 				hdr = r.PickS("ws", "sse", "both", "wsx", "ssex", "wsx", "ssex")
 			}
 			dur := "pos"
-			if r.Chance(1, 20) {
+			if !goexit && r.Chance(1, 20) {
 				dur = r.PickS("zero", "neg")
 				if kind == "timer" {
 					kind = "deadline"
